@@ -201,6 +201,8 @@ def run(ctx):
     ctx.corr('REALPATH decision (_Match.match)', corr.corr_realpath(rng, [trees.DESIGNED[0], trees.DESIGNED[3], trees.DESIGNED[1], trees.DESIGNED[2]] +
                                                                    [trees.random_spec(rng, size=rng.randint(6, 12), cycles=False) for _ in range(2 if ctx.quick else 12)],
                                                                    150 if ctx.quick else 600))
+    nin_ = _gcm.inert_arguments(ctx, rng, 3 if ctx.quick else 6)
+    ctx.counted('arguments that cannot change the answer (inert exclude=, root spelling, NOUNIQUE)', nin_, nin_ // 2, [{'pattern': '**', 'exclude': 'zz-no-such-name*'}])
     nug_ = _gcm.unclosed_group_paths(ctx)
     ctx.counted('unclosed groups in path patterns: walker vs matcher', nug_, nug_ // 2, [{'pattern': '@(a/[b'}])
     nsp_ = _gcm.spelling_equiv(ctx, rng, 2 if ctx.quick else 8, 20 if ctx.quick else 80)
